@@ -227,7 +227,9 @@ void ScriptClass::KillThreads()
     for (size_t i = 1; i <= threads.NumObjects(); ++i)
     {
         ScriptThread* const thread = threads.ObjectAt(i);
-        if (thread) {
+        // a thread without VM is inside its own destructor (it cancelled its waits, this class lost
+        // its last waiter and is dying with it): deleting it again would free it under that destructor
+        if (thread && thread->GetScriptVM()) {
             delete thread;
         }
     }
